@@ -32,6 +32,7 @@ class Norm:
         self.cut_loops = cut_loops or set()
         self.opaque: list[str] = []
         self.keyvars: dict = {}  # var -> name of the symbolic dict whose keys it ranges over
+        self.srcof: dict = {}  # bound variable -> the source it ranges over
         self.n = 0
 
     def fresh(self):
@@ -141,7 +142,22 @@ class Norm:
         if tag in ("len", "str"):
             return (tag, self.N(t[1], sub))
         if tag == "slice":
-            return ("slice", *(self.N(x, sub) for x in t[1:]))
+            base, lo, hi, st = (self.N(x, sub) for x in t[1:5])
+            seq = t[5] if len(t) > 5 else self.seq_tag(t[1])
+            # bounds that are positions must be positions in this very sequence (same elements, same order)
+            for ix in subterms_tagged((lo, hi), "idx"):
+                if len(ix) < 4 or ix[2] != seq or ix[3] is None or self.as_source(ix[3]) != self.as_source(base):
+                    seq = "?positions of another sequence"
+            return ("slice", base, lo, hi, st, seq)
+        if tag == "arith":
+            a, b = self.N(t[2], sub), self.N(t[3], sub)
+            if a[0] == "const" and b[0] == "const" and isinstance(a[1], int) and isinstance(b[1], int):
+                return ("const", a[1] + b[1] if t[1] == "+" else a[1] - b[1])
+            if t[1] == "+" and a[0] == "const":
+                a, b = b, a  # the constant last
+            if b == ("const", 0):
+                return a
+            return ("arith", t[1], a, b)
         if tag == "opaque":
             self.opaque.append(t[1])
             return ("opaque", t[1], tuple(self.N(k, sub) for k in t[2]))
@@ -160,7 +176,7 @@ class Norm:
             rest = t[2][1] if len(t[2]) == 2 else ("boolop", t[1], t[2][1:])
             c = ("truthy", t[2][0])
             return self.N(("ite", c, t[2][0], rest) if t[1] == "or" else ("ite", c, rest, t[2][0]), sub)
-        if tag in ("attrcall", "partial", "bound", "module", "starred", "valof", "getnone", "getempty", "lookup", "bag", "idx", "dictview", "pairacc"):
+        if tag in ("attrcall", "partial", "bound", "module", "starred", "valof", "getnone", "getempty", "lookup", "bag", "idx", "dictview", "pairacc", "methodcaller", "attrgetter", "itemgetter"):
             return tuple(self.N(x, sub) if isinstance(x, tuple) else x for x in t) if tag != "bag" else t
         self.opaque.append(f"term {tag}")
         return ("opaque", f"term {tag}", ())
@@ -226,7 +242,7 @@ class Norm:
         # the element is only looked at under the generator's condition
         out = [(restrict(e, c), f, c) if c != TRUE else (e, f, c) for e, f, c in out]
         out = [g for g in out if g[2] != FALSE and self.feasible(g)]
-        out = self.merge_exclusive(out)
+        out = self.merge_exclusive(self.use_equalities(out))
         if len(out) == 1:
             elt, fors, c = out[0]
             if c == TRUE and len(fors) == 1:
@@ -236,6 +252,36 @@ class Norm:
                 if src[0] == "keys" and elt == ("pair", v, ("valof", src[1], v)):
                     return src[1]
         return ("bag", tuple(("g", e, f, c) for e, f, c in out))
+
+    @staticmethod
+    def use_equalities(gens):
+        """A generator guarded by `a == b` (two symbolic inputs) may be written with either of them: choose the spelling that
+        another generator of the bag already has, so that `e(a) if a == b` and `e(b) if not a == b` become one generator."""
+        if len(gens) < 2:
+            return gens
+        heads = [canon_gen(("g", e, f, TRUE), {}, 0, with_cond=False) for e, f, _c in gens]
+        out = list(gens)
+        for i, (e, f, c) in enumerate(gens):
+            lits = c[1] if c[0] == "and" else (c,)
+            for lit in lits:
+                if lit[0] == "cmp" and lit[1] == "==" and lit[2][0] == "sym" and lit[3][0] == "sym":
+                    pairs = ((lit[2], lit[3]), (lit[3], lit[2]))
+                elif lit[0] == "is" and lit[1][0] == "sym" and lit[2] == NONE:
+                    pairs = ((NONE, lit[1]),)  # under `x is None` every None may be spelled x
+                else:
+                    continue
+                done = False
+                for a, b in pairs:
+                    e2, f2 = replace_term(e, a, b), replace_term(f, a, b)
+                    h2 = canon_gen(("g", e2, f2, TRUE), {}, 0, with_cond=False)
+                    if h2 != heads[i] and any(h2 == h for j, h in enumerate(heads) if j != i):
+                        rest = c_and([replace_term(x, a, b) if x != lit else x for x in lits])
+                        out[i] = (e2, f2, rest)
+                        done = True
+                        break
+                if done:
+                    break
+        return out
 
     def merge_exclusive(self, gens):
         """`e for v in S if c1` and `e for v in S if c2` with c1, c2 mutually exclusive are one generator `... if c1 or c2`."""
@@ -316,7 +362,81 @@ class Norm:
             n = ("keys", n)
         if n[0] == "keys":
             self.keyvars[v] = n[1]
+        self.srcof[v] = n
         return [(v, ((v, n),), [])]
+
+    # sequences: positions and slices ------------------------------------
+    @staticmethod
+    def seq_tag(t) -> str:
+        """What fixes the order of a sequence term: its wrapper chain down to (and including) the first `sorted`; copies (`list`,
+        `tuple`, `iter`) keep the order.  Two iterations of the same unmodified collection under the same tag visit the same
+        sequence."""
+        chain = []
+        while True:
+            if t[0] == "wrap" and t[1] in WRAPPERS:
+                name, t = t[1], t[2]
+            elif t[0] == "coll" and t[1] in ("list", "set") and len(t[2]) == 1 and t[2][0][0] == "splat":
+                name, t = t[1], t[2][0][1]
+            else:
+                break
+            if name in ("list", "tuple", "iter"):
+                continue
+            chain.append(name)
+            if name == "sorted":
+                break
+        return "/".join(chain)
+
+    def distinct_source(self, src) -> bool:
+        """A source without duplicates: a symbolic set, the keys of a dict, a set stored in a symbolic dict."""
+        return src[0] in ("keys", "valof", "getempty") or (src[0] == "sym" and src[1] not in self.list_syms)
+
+    def as_source(self, n):
+        return ("keys", n) if n[0] == "sym" and n[1] in self.dict_syms else n
+
+    def complement_of_position(self, p, q, sub):
+        """`S[:i] + S[i+1:]` where i is the position of the element x in an enumeration of the same sequence S of distinct
+        elements: every element of S except x.  Returns the generators or None."""
+        if p[0] != "slice" or q[0] != "slice":
+            return None
+        lo1, hi1, st1 = (self.N(x, sub) for x in p[2:5])
+        lo2, hi2, st2 = (self.N(x, sub) for x in q[2:5])
+        unit = (NONE, ("const", 1))
+        if lo1 not in (NONE, ("const", 0)) or st1 not in unit or st2 not in unit or hi2 != NONE:
+            return None
+        if hi1[0] != "idx" or hi1[1][0] != "var" or lo2 != ("arith", "+", hi1, ("const", 1)):
+            return None
+        x, tag = hi1[1], hi1[2] if len(hi1) > 2 else None
+        if tag is None or self.seq_tag(p[1]) != tag or self.seq_tag(q[1]) != tag:
+            return None
+        s1, s2 = self.as_source(self.N(p[1], sub)), self.as_source(self.N(q[1], sub))
+        if s1 != s2 or self.srcof.get(x) != s1 or not self.distinct_source(s1):
+            return None
+        out = []
+        for e, f, cs in self.atomic(s1):
+            out.append((e, f, cs + [c_not(self.eq(e, x))]))
+        return out
+
+    def concat_parts(self, t) -> list:
+        if t[0] == "concat":
+            return self.concat_parts(t[1]) + self.concat_parts(t[2])
+        if t[0] == "coll" and t[1] in ("list", "iter") and t[2] and all(it[0] == "splat" for it in t[2]):
+            return [x for it in t[2] for x in self.concat_parts(it[1])]
+        return [t]
+
+    def gens_concat(self, parts, sub):
+        out = []
+        i = 0
+        while i < len(parts):
+            hit = self.complement_of_position(parts[i], parts[i + 1], sub) if i + 1 < len(parts) else None
+            if hit is not None:
+                out.extend(hit)
+                i += 2
+                continue
+            p = parts[i]
+            # a part that is itself a chain of splats was flattened by concat_parts: it cannot recurse into gens_concat again
+            out.extend(self.gens(p, sub) if p[0] != "concat" else self.gens_concat(self.concat_parts(p), sub))
+            i += 1
+        return out
 
     def refresh(self, g):
         """Fresh copy of a generator of an already normalised bag (its bound variables renamed)."""
@@ -328,6 +448,7 @@ class Norm:
             src2 = subst(src, ren)
             if src2[0] == "keys":
                 self.keyvars[w] = src2[1]
+            self.srcof[w] = src2
             ren[v] = w
             nf.append((w, src2))
         return (subst(elt, ren), tuple(nf), [subst(c, ren)])
@@ -352,6 +473,9 @@ class Norm:
     def gens(self, t, sub):
         tag = t[0]
         if tag == "coll":
+            parts = self.concat_parts(t)
+            if len(parts) > 1 and any(p[0] == "slice" for p in parts):
+                return self.gens_concat(parts, sub)
             out = []
             for it in t[2]:
                 if it[0] == "elem":
@@ -366,7 +490,7 @@ class Norm:
         if tag == "splatted":
             return self.gens(t[1], sub)
         if tag == "concat":
-            return self.gens(t[1], sub) + self.gens(t[2], sub)
+            return self.gens_concat(self.concat_parts(t), sub)
         if tag == "setop":
             a = self.gens(t[2], sub)
             if t[1] == "|":
@@ -388,6 +512,7 @@ class Norm:
             if d[0] == "sym":
                 k = self.fresh()
                 self.keyvars[k] = d
+                self.srcof[k] = ("keys", d)
                 val = ("valof", d, k)
                 elt = {"keys": k, "values": val, "items": ("tuple", (k, val))}[tag]
                 return [(elt, ((k, ("keys", d)),), [])]
@@ -413,7 +538,8 @@ class Norm:
                     out.append((e2, f + f2, cs + cs2))
             return out
         if tag == "enumerate":
-            return [(("tuple", (("idx", e), e)), f, cs) for e, f, cs in self.gens(t[1], sub)]
+            seq = self.seq_tag(t[1])
+            return [(("tuple", (("idx", e, seq, self.srcof.get(e) if e[0] == "var" else None), e)), f, cs) for e, f, cs in self.gens(t[1], sub)]
         if tag == "boolop":
             n = self.N(t, sub)
             return self.gens_nf(n)
@@ -613,6 +739,13 @@ class Norm:
                 seen = [p for p in seen if p not in implied]
             if tag == "and" and any(c_not(p) in seen for p in seen):
                 return FALSE
+            if tag == "and":
+                # an exception that is an instance of A is not "an exception that is no instance of A" (with statements)
+                for p in seen:
+                    if p[0] == "raised" and len(p[2]) == 1 and p[2][0].startswith("not "):
+                        excluded = set(p[2][0][4:].split("|"))
+                        if any(q[0] == "raised" and q[1] == p[1] and q is not p and set(q[2]) <= excluded for q in seen):
+                            return FALSE
             if tag == "or" and any(c_not(p) in seen for p in seen):
                 return TRUE
             return c_and(seen) if tag == "and" else c_or(seen)
@@ -721,6 +854,31 @@ def nonempty_sources(c, fors):
         return x
 
     return walk(c)
+
+
+def replace_term(t, a, b):
+    if t == a:
+        return b
+    if isinstance(t, tuple) and len(t) == 2 and t[0] == "sym" and a[0] == "sym" and b[0] == "sym":
+        # inputs derived from a (the diagram parsed from path a is `M<a>`, `D<a>`; plain `M`, `D` for the path PATH)
+        name = t[1]
+        if a[1] == "PATH" and "<" not in name and name in ("M", "D"):
+            return ("sym", f"{name}<{b[1]}>")
+        if name.endswith(f"<{a[1]}>"):
+            return ("sym", name[: -len(a[1]) - 2] + ("" if b[1] == "PATH" else f"<{b[1]}>"))
+        return t
+    if isinstance(t, tuple):
+        return tuple(replace_term(x, a, b) if isinstance(x, tuple) else x for x in t)
+    return t
+
+
+def subterms_tagged(t, tag: str):
+    if isinstance(t, tuple) and t:
+        if t[0] == tag:
+            yield t
+        for x in t:
+            if isinstance(x, tuple):
+                yield from subterms_tagged(x, tag)
 
 
 def has_var(t) -> bool:
